@@ -64,4 +64,16 @@ def extra(binary, build, tier, rng):
             f = parse_ok(res)
             return None if f is None else int(f[0]) - lo
         ps.append(("Uniform<%s>(%d..=%d)" % (ty, lo, hi), r, L, mk, parse, mk2))
+    # the same counts for a sampler that went through its serialised form (what the object caches must survive the round trip)
+    for ty, lo, hi, L in [("u8", 0, 5, 32), ("u16", 10, 16, 32), ("u64", 0, 2, 64), ("usize", 0, 6, 64), ("i32", -500000, 499999, 64), ("i64", -5, 5, 64)][:(3 if tier == "quick" and build != "dev" else 6)]:
+        r = hi - lo + 1
+        via = "serde" if (lo + hi) % 2 == 0 else "serdesampler"
+        def mks(w, ty=ty, lo=lo, hi=hi, via=via):
+            return "uint ty=%s lo=%d hi=%d incl=1 via=%s n=1 words=%d" % (ty, lo, hi, via, w)
+        def mks2(w1, w2, ty=ty, lo=lo, hi=hi, via=via):
+            return "uint ty=%s lo=%d hi=%d incl=1 via=%s n=1 words=%d,%d" % (ty, lo, hi, via, w1, w2)
+        def parse(res, lo=lo):
+            f = parse_ok(res)
+            return None if f is None else int(f[0]) - lo
+        ps.append(("Uniform<%s>(%d..=%d) restored from its serialised form" % (ty, lo, hi), r, L, mks, parse, mks2))
     yield from first_draw_counts(binary, build, rng, ps, "preimage-interval-probes")
